@@ -530,4 +530,43 @@ theorem styled_fits_identity (cw : Char → Nat) (segs : List Seg) (hard : Nat) 
 
 example : segsCost (fun _ => 1) [.text "aa bb\n".toList, .esc "\x1b[1m".toList, .text "cc dd".toList] = 11 := by decide
 
+/-! #### 10. the tight form: the trailing whitespace of a line's last word (its `"\n"` included) does not count -/
+
+def tightCost (cw : Char → Nat) : List Str → Nat
+  | [] => 0
+  | [w] => displayWidth cw (trimEnd w)
+  | w :: r => wordCost cw w + tightCost cw r
+
+theorem wrapLoop_fits_tight (cw : Char → Nat) : ∀ (ws : List Str) (st : LW) (first : Bool) (acc : List Str),
+    st.lineWidth + tightCost cw ws ≤ st.hard → (wrapLoop cw st first acc ws).2 = ws.reverse ++ acc
+  | [], st, first, acc, _ => by simp [wrapLoop]
+  | [w], st, first, acc, h => by
+    simp only [tightCost] at h
+    have hno : ¬ (st.hard < st.lineWidth + displayWidth cw (trimEnd w)) := by omega
+    unfold wrapLoop
+    simp only [hno, decide_false, Bool.and_false, Bool.false_eq_true, ↓reduceIte]
+    simp [wrapLoop]
+  | w :: w2 :: r, st, first, acc, h => by
+    simp only [tightCost, wordCost] at h
+    have hno : ¬ (st.hard < st.lineWidth + displayWidth cw (trimEnd w)) := by omega
+    unfold wrapLoop
+    simp only [hno, decide_false, Bool.and_false, Bool.false_eq_true, ↓reduceIte]
+    rw [wrapLoop_fits_tight cw (w2 :: r) _ false (w :: acc) (by simp only; omega)]
+    simp
+
+/-- a line is returned word for word as soon as everything up to the end of its last word's visible text fits: a
+terminated line of exactly `hard` columns is not broken -/
+theorem wrap_line_fits_tight (cw : Char → Nat) (hard : Nat) (line : Str) (hfit : tightCost cw (findWords line) ≤ hard) :
+    ((LW.new hard).wrap cw (findWords line)).2 = findWords line := by
+  unfold LW.wrap
+  cases hws : findWords line with
+  | nil => simp [LW.new, wrapLoop]
+  | cons w0 rest =>
+    rw [hws] at hfit
+    simp only [LW.new]
+    rw [wrapLoop_fits_tight cw (w0 :: rest) _ true [] (by simp only; omega)]
+    simp
+
+example : tightCost (fun _ => 1) (findWords "aaa bbb\n".toList) = 7 ∧ lineCost (fun _ => 1) "aaa bbb\n".toList = 8 := by decide
+
 end Clap.C20
